@@ -25,8 +25,14 @@ namespace ss
             p.set("mode", "ts");
             int tasks = int(r.range(2, 4));
             p.set("tasks", tasks);
-            p.set("variant", profile == "C15T" ? 6ll : (long long)r.below(13)); // C15T: the process-wide counters only
+            p.set("variant", profile == "C15T" ? 6ll : (long long)r.below(14)); // C15T: the process-wide counters only
             p.set("lock_fail", r.chance(2, 3) ? (long long)r.range(1, 12) : 0); // variant 11: the k-th lock() throws
+            if (r.chance(1, 3))
+            {
+                // the wrapped allocator fails (throws) at the k-th throwing allocation call, then every j-th
+                p.set("probe_fail", (long long)r.range(1, 8));
+                p.set("probe_fail_again", r.chance(1, 2) ? (long long)r.range(1, 5) : 0);
+            }
             p.set("budget", 5000);
             auto ns = r.pick<long long>({8, 16, 32, 64});
             p.set("node_size", ns);
